@@ -735,6 +735,69 @@ impl<E: Elem> World<E> {
     }
 }
 
+impl World<Tok> {
+    /// `iteradapt r variant adaptor`: an element iterator consumed through ONE iterator adaptor;
+    /// oracle = the same adaptor on the reference's memory-order items
+    pub fn iter_adapt(&mut self, out: &mut Out, r: usize, variant: &str, adaptor: &str) {
+        use matreex::Index;
+        let op = format!("iteradapt {r} {variant} {adaptor}");
+        out.announce(&op);
+        let with_index = variant.contains("wi");
+        let consuming = variant.starts_with("into");
+        let (order, rf) = self.refs[r].clone().unwrap();
+        // reference items in memory order
+        let mut want_items: Vec<String> = Vec::new();
+        let (maj, min) = if order == matreex::Order::RowMajor { (rf.nrows, rf.ncols) } else { (rf.ncols, rf.nrows) };
+        if rf.nrows * rf.ncols > 0 {
+            for i in 0..maj { for j in 0..min {
+                let (rr, cc) = if order == matreex::Order::RowMajor { (i, j) } else { (j, i) };
+                want_items.push(if with_index { format!("{rr}.{cc}={}", rf.rows[rr][cc]) } else { rf.rows[rr][cc].clone() });
+            } }
+        }
+        fn show_e(i: Option<Index>, v: &str) -> String { match i { Some(i) => format!("{}.{}={v}", i.row, i.col), None => v.to_string() } }
+        macro_rules! apply {
+            ($it:expr, $f:expr) => {{
+                let it = $it;
+                let f = $f;
+                match adaptor {
+                    "n1" => { let mut it = it; it.nth(1).map(|x| f(x)).unwrap_or("-".into()) }
+                    "nb1" => { let mut it = it; it.nth_back(1).map(|x| f(x)).unwrap_or("-".into()) }
+                    "ss" => format!("[{}]", it.skip(1).step_by(2).map(|x| f(x)).collect::<Vec<_>>().join(",")),
+                    "tr" => format!("[{}]", it.take(2).rev().map(|x| f(x)).collect::<Vec<_>>().join(",")),
+                    "rs" => format!("[{}]", it.rev().skip(1).map(|x| f(x)).collect::<Vec<_>>().join(",")),
+                    "last" => it.last().map(|x| f(x)).unwrap_or("-".into()),
+                    "count" => it.count().to_string(),
+                    _ => format!("[{}]", it.fold(Vec::new(), |mut acc, x| { acc.push(f(x)); acc }).join(",")),
+                }
+            }};
+        }
+        let res = {
+            let regs = &mut self.regs;
+            catch(|| match variant {
+                "elems" => { let m = regs[r].as_ref().unwrap(); apply!(m.iter_elements(), |e: &Tok| show_e(None, &e.val)) }
+                "elems_mut" => { let m = regs[r].as_mut().unwrap(); apply!(m.iter_elements_mut(), |e: &mut Tok| show_e(None, &e.val)) }
+                "into" => { let m = regs[r].take().unwrap(); apply!(m.into_iter_elements(), |e: Tok| show_e(None, &e.val)) }
+                "wi" => { let m = regs[r].as_ref().unwrap(); apply!(m.iter_elements_with_index(), |(i, e): (Index, &Tok)| show_e(Some(i), &e.val)) }
+                "wi_mut" => { let m = regs[r].as_mut().unwrap(); apply!(m.iter_elements_mut_with_index(), |(i, e): (Index, &mut Tok)| show_e(Some(i), &e.val)) }
+                _ => { let m = regs[r].take().unwrap(); apply!(m.into_iter_elements_with_index(), |(i, e): (Index, Tok)| show_e(Some(i), &e.val)) }
+            })
+        };
+        if consuming { self.refs[r] = None; self.regs[r] = None; }
+        let o = |x: Option<&String>| x.cloned().unwrap_or("-".into());
+        let l = |x: Vec<&String>| format!("[{}]", x.into_iter().cloned().collect::<Vec<_>>().join(","));
+        let v = &want_items;
+        let want = match adaptor {
+            "n1" => o(v.iter().nth(1)), "nb1" => o(v.iter().nth_back(1)), "ss" => l(v.iter().skip(1).step_by(2).collect()), "tr" => l(v.iter().take(2).rev().collect()),
+            "rs" => l(v.iter().rev().skip(1).collect()), "last" => o(v.iter().last()), "count" => v.len().to_string(), _ => l(v.iter().collect()),
+        };
+        let obs = match res { None => { out.oracle_fail(&format!("{op}: panicked")); "panic".to_string() } Some(s) => format!("ok {s}") };
+        if obs != format!("ok {want}") && obs != "panic" { out.oracle_fail(&format!("{op}: expected `{want}`, implementation gave `{obs}`")); }
+        out.count(&format!("iteradapt:{adaptor}"));
+        out.observe(&obs);
+        if !consuming { self.check_reg(out, r, &op); }
+    }
+}
+
 impl<E: Elem + Send + Sync> World<E> {
     /// `iter r variant pattern` for element types without identity (zero-sized ones): the same
     /// operation line as the token version; oracle: one item per element, and for the indexed
